@@ -176,8 +176,11 @@ class PatternedDTParser(AbstractParser[PatternedDT, DT]):
     def __post_init__(self, _cls: Type, extras: Extras, *_):
         if not isinstance(self.base_type, PatternedDT):
             dt_cls = self.base_type
-            self.base_type = extras['pattern']
-            self.base_type.cls = dt_cls
+            # one `Pattern(...)` object can annotate positions of different
+            # date/time types (in this class or another): give each parser
+            # its own copy, instead of re-targeting the shared object (which
+            # `__call__` reads again when it reports a `ParseError`)
+            self.base_type = PatternedDT(extras['pattern'].pattern, dt_cls)
 
         self.hook = self.base_type.get_transform_func()
 
